@@ -40,9 +40,9 @@ Proof. exact format_pure. Qed.
 
 (* Without the side condition the result does depend on the order: two reachable items with the same
    name and different shapes (known class name_collision). *)
-Definition C20_w_a1 : item := mkItem ("m", 1%N) (Some "A") KStructUnit false None None None.
-Definition C20_w_a2 : item := mkItem ("m", 2%N) (Some "A") (KStructTuple [3%N]) false None None None.
-Definition C20_w_f3 : item := mkItem ("m", 3%N) (Some "0") KField false (Some "0") (Some (FPrim PU8)) None.
+Definition C20_w_a1 : item := mkItem ("m", 1%N) (Some "A") (Some "A") KStructUnit false None None None.
+Definition C20_w_a2 : item := mkItem ("m", 2%N) (Some "A") (Some "A") (KStructTuple [3%N]) false None None None.
+Definition C20_w_f3 : item := mkItem ("m", 3%N) (Some "0") (Some "0") KField false (Some "0") (Some (FPrim PU8)) None.
 Theorem C20_collision_order_dependent_refuted :
   exists es es', Permutation es es' /\ wf_edges es = true /\ format es <> format es'.
 Proof.
@@ -104,19 +104,47 @@ Theorem C20_request_without_effect_refuted :
   format [] = [("Request", request_container)] /\ closedb (format []) = false.
 Proof. vm_compute. split; reflexivity. Qed.
 
-(* (2) known class childless_type_undefined: a field whose type is a local unit struct.  The edge rules
-   follow the type (edge(field, Marker) is derived) but a non-root unit struct never occurs as the source
-   of an edge, so no container is produced for it. *)
-Definition C20_w_ev : item := mkItem ("m", 1%N) (Some "Event") (KStructPlain [2%N]) false None None None.
-Definition C20_w_fm : item := mkItem ("m", 2%N) (Some "marker") KField false (Some "marker") (Some (FTypeName "Marker")) None.
-Definition C20_w_mk : item := mkItem ("m", 3%N) (Some "Marker") KStructUnit false None None None.
+(* (2) A field whose type is a local unit struct.  Before fix: commit 8ae740d the edge rules followed the
+   type (edge(field, Marker)) but a non-root unit struct never became the source of an edge, so no
+   container was produced for it; the repaired rules give it an edge to itself and the registry is closed. *)
+Definition C20_w_ev : item := mkItem ("m", 1%N) (Some "Event") (Some "Event") (KStructPlain [2%N]) false None None None.
+Definition C20_w_fm : item := mkItem ("m", 2%N) (Some "marker") (Some "marker") KField false (Some "marker") (Some (FTypeName "Marker")) None.
+Definition C20_w_mk : item := mkItem ("m", 3%N) (Some "Marker") (Some "Marker") KStructUnit false None None None.
 Definition C20_w_dump : dump := mkDump [C20_w_ev; C20_w_fm; C20_w_mk] [C20_w_ev] [(C20_w_ev, C20_w_fm)] [] [(C20_w_fm, C20_w_mk)].
-Theorem C20_childless_type_refuted :
-  closure gid_eqb (fuel_for C20_w_dump) (gfacts C20_w_dump) [] = Some (map gpair [(C20_w_ev, C20_w_fm); (C20_w_fm, C20_w_mk)])
-  /\ wf_edges [(C20_w_ev, C20_w_fm); (C20_w_fm, C20_w_mk)] = true
-  /\ pipeline C20_w_dump = Some [("Event", CStruct [("marker", FTypeName "Marker")]); ("Request", request_container)]
-  /\ option_map closed_mod_requestb (pipeline C20_w_dump) = Some false.
-Proof. vm_compute. repeat split; discriminate || reflexivity. Qed.
+Theorem C20_unit_struct_field_defined :
+  pipeline C20_w_dump = Some [("Event", CStruct [("marker", FTypeName "Marker")]); ("Marker", CUnitStruct); ("Request", request_container)]
+  /\ option_map closed_mod_requestb (pipeline C20_w_dump) = Some true.
+Proof. vm_compute. split; reflexivity. Qed.
+
+(* known class childless_enum_undefined: the same with an enum that has no (unskipped) variant - the
+   container rule for enums needs a variant edge. *)
+Definition C20_w_en : item := mkItem ("m", 3%N) (Some "Marker") (Some "Marker") (KEnum []) false None None None.
+Definition C20_w_dump2 : dump := mkDump [C20_w_ev; C20_w_fm; C20_w_en] [C20_w_ev] [(C20_w_ev, C20_w_fm)] [] [(C20_w_fm, C20_w_en)].
+Theorem C20_childless_enum_refuted :
+  closure gid_eqb (fuel_for C20_w_dump2) (gfacts C20_w_dump2) [] = Some (map gpair [(C20_w_ev, C20_w_fm); (C20_w_fm, C20_w_en)])
+  /\ wf_edges [(C20_w_ev, C20_w_fm); (C20_w_fm, C20_w_en)] = true
+  /\ pipeline C20_w_dump2 = Some [("Event", CStruct [("marker", FTypeName "Marker")]); ("Request", request_container)]
+  /\ option_map closed_mod_requestb (pipeline C20_w_dump2) = Some false
+  /\ known_childless [(C20_w_ev, C20_w_fm); (C20_w_fm, C20_w_en)] "Marker" = true.
+Proof. vm_compute. repeat split. Qed.
+
+(* known class renamed_type_reference: serde(rename = "Tag") on the struct: defined as Tag, referred to as Marker *)
+Definition C20_w_rn : item := mkItem ("m", 3%N) (Some "Tag") (Some "Marker") (KStructTuple [4%N]) false None None None.
+Definition C20_w_f4 : item := mkItem ("m", 4%N) (Some "0") (Some "0") KField false (Some "0") (Some (FPrim PU8)) None.
+Definition C20_w_es3 : edges := [(C20_w_ev, C20_w_fm); (C20_w_fm, C20_w_rn); (C20_w_rn, C20_w_f4)].
+Theorem C20_renamed_reference_refuted :
+  wf_edges C20_w_es3 = true
+  /\ format C20_w_es3 = [("Event", CStruct [("marker", FTypeName "Marker")]); ("Request", request_container); ("Tag", CNewTypeStruct (FPrim PU8))]
+  /\ closed_mod_requestb (format C20_w_es3) = false /\ known_renamed C20_w_es3 "Marker" = true.
+Proof. vm_compute. repeat split. Qed.
+
+(* known class nested_range_undefined: a field of type Option<Range<u32>> *)
+Definition C20_w_fr : item := mkItem ("m", 2%N) (Some "span") (Some "span") KField false (Some "span") (Some (FOption (FTypeName "Range"))) None.
+Theorem C20_nested_range_refuted :
+  wf_edges [(C20_w_ev, C20_w_fr)] = true
+  /\ format [(C20_w_ev, C20_w_fr)] = [("Event", CStruct [("span", FOption (FTypeName "Range"))]); ("Request", request_container)]
+  /\ closed_mod_requestb (format [(C20_w_ev, C20_w_fr)]) = false /\ known_nested_range [(C20_w_ev, C20_w_fr)] "Range" = true.
+Proof. vm_compute. repeat split. Qed.
 
 (* ---- regenerated descriptions --------------------------------------------------------------- *)
 (* What [fixture_ok] = true establishes about a description. *)
@@ -133,6 +161,15 @@ Theorem C20_fixture_ok_sound : forall d es reg crates, fixture_ok d es reg crate
         run_crates gid_eqb fuel (map (fun c => gfacts (crate_dump d c)) order) = Some G ->
         forall e, In e G <-> In e (map gpair es)).
 Proof. exact fixture_ok_sound. Qed.
+
+(* The trace predicate [C20_ok] (evaluated by the check on every registry the implementation returns
+   for a transformed description) holds of the model, strictly outside class request_without_effect. *)
+Theorem C20_ok_of_model : forall d es reg crates, fixture_ok d es reg crates = true ->
+  forall rho es', (forall c a b, rho c a = rho c b -> a = b) -> Permutation (rename_edges rho es) es' ->
+  C20_ok reg (format es') = true
+  /\ (known_request_without_effect (format es') = false -> definesb es "Effect" = true ->
+      C20_ok_strict reg (format es') = true).
+Proof. exact ok_of_model. Qed.
 
 (* Each bundled description, as dumped from the real Filter/Formatter on this run (vm_compute on the
    whole regenerated object). *)
